@@ -424,6 +424,39 @@ def check_test_flavour(wd, sieve, stats):
                                                   f'{got} instead of {exp} (fj --run printed {so[:40]!r})'})
 
 
+def check_outfile_reuse(wd, sieve, stats):
+    """histories of fj calls that write to the SAME -o path: what the one-step flow leaves there - and what it runs - is a function of the
+    current call's sources and options only, whatever an earlier call left at that path (every ordered pair of option sets / source lists)."""
+    root = wd / 'reuse'
+    root.mkdir()
+    a, b = root / 'a.fj', root / 'b.fj'
+    a.write_text(PROGRAMS['width'][0])                                                # prints w/8
+    b.write_text(';code\nIO:\n;0\ncode:\n' + ''.join(f'IO+{x};\n' for x in [(0x42 >> i) & 1 for i in range(8)]) + 'end:\n;end\n')   # prints B, no stl needed
+    calls = [('w64-v3', [str(a), '-w', '64']), ('w32-v3', [str(a), '-w', '32']), ('w64-v1', [str(a), '-w', '64', '-v', '1']),
+             ('other-source', [str(b), '--no_stl', '-w', '64']), ('w64-preset0', [str(a), '-w', '64', '--lzma_preset', '0'])]
+    fresh = {}
+    for name, args in calls:
+        out = root / f'fresh-{name}.fjm'
+        rc, so, se = cli(args + ['-s', '-o', str(out)])
+        stats['cli_runs'] += 1
+        fresh[name] = (rc, so, out.read_bytes() if out.exists() else None)
+    for (n1, a1), (n2, a2) in itertools.permutations(calls, 2):
+        out = root / 'shared.fjm'
+        if out.exists():
+            out.unlink()
+        cli(a1 + ['-s', '-o', str(out)])
+        rc, so, se = cli(a2 + ['-s', '-o', str(out)])
+        stats['cli_runs'] += 2
+        stats['configs'] += 1
+        got = (rc, so, out.read_bytes() if out.exists() else None)
+        if got != fresh[n2]:
+            what = [k for k, x, y in zip(('exit code', 'program output', 'file bytes'), got, fresh[n2]) if x != y]
+            sieve.add({'kind': 'the one-step flow depends on what an earlier call left at the -o path', 'class': 'outfile reuse',
+                       'case': {'first_call': a1, 'second_call': a2, 'names': [n1, n2]}, 'expected': {'exit code': fresh[n2][0], 'output': fresh[n2][1].decode('latin1'), 'file': f'{len(fresh[n2][2] or b"")} bytes'},
+                       'observed': {'exit code': rc, 'output': so.decode('latin1'), 'file': f'{len(got[2] or b"")} bytes', 'differs in': what},
+                       'summary': f'fj {n1} then fj {n2} on one -o path: {what} differ from the {n2} call alone'})
+
+
 def check_breakpoints(wd, sieve, stats):
     """label breakpoints through every route and option mix (-s, -d with a path / bare / absent, -b / -B): the run pauses at the label -
     answering `q` stops the program before the bytes after the label are printed, answering `c` lets it print all of them."""
@@ -588,8 +621,8 @@ def work(task):
     sieve = Sieve(PROP)
     stats = {'configs': 0, 'cli_runs': 0}
     wd = scratch()
-    if kind in ('defaults', 'default-device', 'paths', 'werror', 'partial', 'breakpoints', 'test-flavour'):
-        {'defaults': check_defaults, 'default-device': check_default_device, 'paths': check_path_spellings, 'werror': check_werror, 'partial': check_partial_output, 'breakpoints': check_breakpoints, 'test-flavour': check_test_flavour}[kind](wd, sieve, stats)
+    if kind in ('defaults', 'default-device', 'paths', 'werror', 'partial', 'breakpoints', 'test-flavour', 'outfile-reuse'):
+        {'defaults': check_defaults, 'default-device': check_default_device, 'paths': check_path_spellings, 'werror': check_werror, 'partial': check_partial_output, 'breakpoints': check_breakpoints, 'test-flavour': check_test_flavour, 'outfile-reuse': check_outfile_reuse}[kind](wd, sieve, stats)
         return stats, sieve.result(), None
     sample = None
     api_user_history(part, wd)
@@ -627,7 +660,7 @@ def main():
     if args.replay:
         return replay(args)
     run = Run(PROP, 'exploration', args)
-    tasks = [(k, args.tier, 0, 1) for k in ('defaults', 'default-device', 'paths', 'werror', 'partial', 'breakpoints', 'test-flavour')] + [('cfg', args.tier, p, 32) for p in range(32)]
+    tasks = [(k, args.tier, 0, 1) for k in ('defaults', 'default-device', 'paths', 'werror', 'partial', 'breakpoints', 'test-flavour', 'outfile-reuse')] + [('cfg', args.tier, p, 32) for p in range(32)]
     total, samples = {}, []
     for stats, res, sample in pmap(work, tasks, args.jobs):
         for k, v in stats.items():
